@@ -9,21 +9,23 @@
      "api"       raise APIError(400)                             (unknown field; unparsable JSON body)
      "exc"       another exception escapes before any assignment (int("abc"), "str".items(), ...)
      "clear_exc" headers.clear() ran, then the following headers.add call raised
-   FlowHandler.put:   flow.backup()            -- a no-op when a backup exists (Flow.backup)
+   FlowHandler.put (repaired, /repo fbda5e579; RevertOnAnyError = BackupPerRequest = TRUE):
+                      old_state = flow.get_state()      -- complete snapshot incl. an existing backup
+                      flow.backup()                     -- a no-op when a backup exists (Flow.backup)
                       try: apply entries in JSON order
-                      except APIError: flow.revert(); raise       -- ONLY APIError (RevertOnAnyError = FALSE)
+                      except APIError: flow.set_state(old_state); raise
+                      except (ValueError, TypeError, AttributeError): flow.set_state(old_state); raise APIError(400)
                       self.view.update([flow])
-   so an "exc" entry leaves the entries before it applied (status 500), and an "api" entry reverts to the OLDEST
-   backup, which is not the state before the request when an earlier accepted edit is still unreverted.
-   These two deviations from the property are what the unchanged code does; RevertOnAnyError / BackupPerRequest
-   describe a repaired handler (set both TRUE to model it).                                              *)
+   The handler before that commit (RevertOnAnyError = BackupPerRequest = FALSE) caught APIError only and called
+   flow.revert(): an "exc" entry left the entries before it applied (status 500), and an "api" entry reverted to the
+   OLDEST backup, which is not the state before the request when an earlier accepted edit is still unreverted.      *)
 EXTENDS Mon_WebEdit, TLC
 CONSTANTS Keys,              \* tracked field keys
           Docs,              \* set of documents: sequences of <<key, kind>>
           MaxOps,
-          RevertOnAnyError,  \* FALSE: the except clause catches APIError only (the code as it is)
-          BackupPerRequest,  \* FALSE: Flow.backup() keeps an existing backup (the code as it is)
-          ModQuirk           \* TRUE: Flow.modified() is True whenever a backup exists (see C40)
+          RevertOnAnyError,  \* TRUE: every failure restores the snapshot (FALSE: only APIError was caught)
+          BackupPerRequest,  \* TRUE: the restore point is the state before the request (FALSE: the oldest backup)
+          ModQuirk           \* TRUE: Flow.modified() is True whenever a backup exists (before the C40 fix)
 VARIABLES flow, backup, nextV, ops, mon, obs
 vars == <<flow, backup, nextV, ops, mon, obs>>
 
